@@ -136,6 +136,20 @@ func (r *c13run) check(end, msg string) error {
 	if end != vs.EndComplete {
 		return fmt.Errorf("HANG: execution ended with %s (%s); delivered %d, Run returned=%v err=%v", end, msg, len(d.Items), d.RunDone, d.RunErr)
 	}
+	if c.Tier == "reject" {
+		want := model(c.Format, c.Prefix)
+		if len(d.Items) > len(want)*2 {
+			return fmt.Errorf("ACCEPTED: %d items delivered from a file with %d well-formed entries (2 passes) and one malformed entry: the malformed entry was delivered", len(d.Items), len(want))
+		}
+		for i, it := range d.Items {
+			if g := it.(httpRec).W; g != want[i%len(want)] {
+				return fmt.Errorf("ACCEPTED: item %d delivered as %s: it is not one of the file's well-formed entries", i, g)
+			}
+		}
+		if d.RunErr == nil {
+			return fmt.Errorf("ACCEPTED: the run ended without an error although the file holds a malformed entry (delivered %d)", len(d.Items))
+		}
+	}
 	if len(c.Prefix) > 0 {
 		want := model(c.Format, c.Prefix)
 		for i := 0; i < len(want) && i < len(d.Items); i++ {
@@ -149,6 +163,18 @@ func (r *c13run) check(end, msg string) error {
 		}
 	}
 	return nil
+}
+
+// rejectCatalogue: per format, file tails each of which is one malformed entry (a header line without
+// a name, sizes that are negative, not numbers or beyond any file, bodies shorter than declared,
+// broken JSON). Bytes of the declared size that are not an HTTP request are not in it: the raw decoder
+// hands them out as an ammo marked invalid, which the gun reports and does not shoot - that is its
+// way of skipping the entry, not a run error.
+var rejectCatalogue = map[string][]string{
+	"uri":     {"[ : v]\n/a\n", "[: v]\n/a\n", "[\t: v]\n/a\n"},
+	"uripost": {"[ : v]\n1 /a\nx\n", "-1 /a\nx\n", "18446744073709551615 /a\nx\n", "9223372036854775808 /a\nx\n", "x /a\nx\n", "5 /a\nab\n", "99999999999999999999 /a\nx\n"},
+	"raw":     {"-1\nGET / HTTP/1.1\r\n\r\n", "18446744073709551615\nGET / HTTP/1.1\r\n\r\n", "9223372036854775808 t\nGET / HTTP/1.1\r\n\r\n", "x\nGET / HTTP/1.1\r\n\r\n", "40\nGET / HTTP/1.1\r\n\r\n", "99999999999999999999\nGET / HTTP/1.1\r\n\r\n"},
+	"jsonline": {"{\n", "{\"uri\": 1}\n", "[1,2\n", "nonsense\n", "{\"uri\":\"/a\",\"method\":\"GET\",\"host\":\"h\"\n"},
 }
 
 func tokenStrings(alpha []string, maxLen int, fn func(toks []string)) (n int) {
@@ -200,6 +226,17 @@ func c13cells(thorough bool, fn func(c C13Cell)) error {
 		})
 		if got != want {
 			return fmt.Errorf("token enumerator for %s produced %d strings, closed form %d", format, got, want)
+		}
+	}
+	// entries that are malformed beyond doubt: they must end in an error (or be skipped), never be delivered
+	for format, tails := range rejectCatalogue {
+		good := itemAlphabet(format, true)[0]
+		for _, tail := range tails {
+			for _, pre := range [][]Item{nil, {good}} {
+				for _, preload := range []bool{false, true} {
+					fn(C13Cell{Tier: "reject", Format: format, Tokens: []string{tail}, Prefix: pre, Mode: 0, Preload: preload})
+				}
+			}
 		}
 	}
 	// valid prefix + malformed tail (streaming formats only)
